@@ -22,5 +22,8 @@ func init() {
 		"github.com/ozontech/seq-db/frac":     {"minMergeQueue": "4"},
 		// the collector's buffers are re-allocated smaller after defaultReuserStatsPoolSize (shipped: 200) bulks
 		"github.com/ozontech/seq-db/util": {"defaultReuserStatsPoolSize": "4"},
+		// a bin keeps maxHistogramSamples values exactly and replaces random ones beyond that (shipped: 8096):
+		// the border and the reservoir path are reachable with tens of documents
+		"github.com/ozontech/seq-db/seq": {"maxHistogramSamples": "8"},
 	}
 }
